@@ -82,7 +82,7 @@ class Violation(object):
 class Stats(object):
     FIELDS = ("paths", "paths_aborted", "decisions", "forks", "feas_queries", "feas_unknown",
               "obligations", "obl_trivial", "obl_unsat", "obl_sat", "obl_unknown",
-              "bound_exceeded", "solver_s", "exceptions")
+              "bound_exceeded", "solver_s", "exceptions", "obl_s", "nra_calls")
 
     def __init__(self):
         for f in self.FIELDS:
@@ -92,6 +92,7 @@ class Stats(object):
         self.unsupported = []
         self.samples = []
         self.functions = set()
+        self.slowest = (0.0, "", "", "")
 
     def merge(self, other):
         for f in self.FIELDS:
@@ -103,6 +104,8 @@ class Stats(object):
             for i in range(3):
                 cur[i] += v[i]
         self.functions |= other.functions
+        if other.slowest[0] > self.slowest[0]:
+            self.slowest = other.slowest
         self.unsupported.extend(other.unsupported[:5])
         if len(self.samples) < 6:
             self.samples.extend(other.samples[: 6 - len(self.samples)])
@@ -110,6 +113,8 @@ class Stats(object):
     def as_dict(self):
         d = {f: getattr(self, f) for f in self.FIELDS}
         d["solver_s"] = round(d["solver_s"], 3)
+        d["obl_s"] = round(d["obl_s"], 3)
+        d["slowest_obligation"] = list(self.slowest)
         d["cover"] = dict(self.cover)
         d["labels"] = {k: {"unsat": v[0], "sat": v[1], "unknown": v[2]} for k, v in self.labels.items()}
         d["unsupported"] = self.unsupported[:10]
@@ -213,6 +218,7 @@ class Ctx(object):
         return res, mdl
 
     def _fallback_nra(self, extra):
+        self.stats.nra_calls += 1
         try:
             s = z3.SolverFor("QF_NRA")
             s.set("timeout", NRA_TIMEOUT_MS)
@@ -361,7 +367,18 @@ class Ctx(object):
             self.stats.obl_unsat += 1
             self._label(label, 0)
             return True
+        neg = self._ctx_simplify(neg)
+        if z3.is_false(neg):
+            self.stats.obl_trivial += 1
+            self.stats.obl_unsat += 1
+            self._label(label, 0)
+            return True
+        t_obl = time.time()
         r, m = self._check(neg)
+        t_obl = time.time() - t_obl
+        self.stats.obl_s += t_obl
+        if t_obl > self.stats.slowest[0]:
+            self.stats.slowest = (round(t_obl, 2), label, r, str(neg)[:300])
         if r == "unsat":
             self.stats.obl_unsat += 1
             self._label(label, 0)
@@ -384,6 +401,73 @@ class Ctx(object):
         self.stats.obl_unknown += 1
         self._label(label, 2)
         return None
+
+    def _ctx_simplify(self, e):
+        """Replace atoms that literally occur in the path condition by their truth value.
+
+        Sound (the pc conjuncts hold on this path) and it removes If-terms whose condition the path
+        already decided, which is what makes the nonlinear queries tractable for nlsat."""
+        subs = []
+        seen = set()
+
+        def atom(a, val):
+            k = a.get_id()
+            if k not in seen:
+                seen.add(k)
+                subs.append((a, z3.BoolVal(val)))
+        for c in self.pc:
+            c = z3.simplify(c)
+            todo = [c]
+            while todo:
+                x = todo.pop()
+                if z3.is_and(x):
+                    todo.extend(x.children())
+                elif z3.is_not(x):
+                    y = x.arg(0)
+                    if not (z3.is_and(y) or z3.is_or(y)):
+                        atom(y, False)
+                elif not z3.is_or(x) and z3.is_bool(x) and not z3.is_true(x):
+                    atom(x, True)
+        if subs:
+            e = z3.simplify(z3.substitute(e, *subs))
+        # If-conditions that the path condition *implies* (not literally contains): decide them with
+        # the incremental solver (cheap, mostly linear) and substitute
+        conds = []
+        seen2 = set()
+        todo = [e]
+        while todo and len(conds) < 12:
+            x = todo.pop()
+            if x.get_id() in seen2:
+                continue
+            seen2.add(x.get_id())
+            if z3.is_app(x):
+                if x.decl().kind() == z3.Z3_OP_ITE and not z3.is_bool(x):
+                    conds.append(x.arg(0))
+                todo.extend(x.children())
+        if conds:
+            subs2 = []
+            self._sync()
+            self.solver.set("timeout", 1000)
+            try:
+                for c in conds:
+                    self.solver.push()
+                    self.solver.add(z3.Not(c))
+                    r1 = str(self.solver.check())
+                    self.solver.pop()
+                    if r1 == "unsat":
+                        subs2.append((c, z3.BoolVal(True)))
+                        continue
+                    self.solver.push()
+                    self.solver.add(c)
+                    r2 = str(self.solver.check())
+                    self.solver.pop()
+                    if r2 == "unsat":
+                        subs2.append((c, z3.BoolVal(False)))
+            finally:
+                self.solver.set("timeout", FEAS_TIMEOUT_MS)
+            if subs2:
+                e = z3.simplify(z3.substitute(e, *subs2))
+        return e
 
     def _nice_model(self, neg):
         """Try to find a counterexample on a dyadic grid (exact in IEEE floats, easy to read)."""
